@@ -1187,7 +1187,7 @@ pub fn soup_case(r: &mut Rng, id: &str, stats: &mut Stats) {
 // ------------------------------------------------------------------ the two families
 
 /// C13: texts through zlink's parser.
-pub fn run_parse(r: &mut Rng, asts: &[Iface], n: u64, trunc_all: u64, soup: u64, stats: &mut Stats) {
+pub fn run_parse(r: &mut Rng, asts: &[Iface], n: u64, trunc_all: u64, soup: u64, exhaustive_every: u64, stats: &mut Stats) {
     // descriptions enumerated by TLC: every layout style
     for (i, a) in asts.iter().enumerate() {
         for style in 0..4 {
@@ -1196,6 +1196,24 @@ pub fn run_parse(r: &mut Rng, asts: &[Iface], n: u64, trunc_all: u64, soup: u64,
         }
         if i % 16 == 0 {
             mutation_cases(r, &format!("m{i}"), a, 1, false, stats);
+        }
+        // every one-token deletion, duplication and swap of neighbours (what MCIdl's Accounted law
+        // enumerates on the model), replayed through zlink's parser
+        if exhaustive_every > 0 && i as u64 % exhaustive_every == 0 {
+            let toks = lex(&render(a, 1, r));
+            for j in 0..toks.len() {
+                let mut t = toks.clone();
+                t.remove(j);
+                parse_case("all-del", &format!("m{i}-d{j}"), &render_tokens(&t), None, stats);
+                let mut t = toks.clone();
+                t.insert(j, toks[j].clone());
+                parse_case("all-dup", &format!("m{i}-u{j}"), &render_tokens(&t), None, stats);
+                if j + 1 < toks.len() {
+                    let mut t = toks.clone();
+                    t.swap(j, j + 1);
+                    parse_case("all-swap", &format!("m{i}-w{j}"), &render_tokens(&t), None, stats);
+                }
+            }
         }
     }
     // grammar-driven random descriptions with random layout
